@@ -299,12 +299,19 @@ func TestCrashDuringForkSwitch(t *testing.T) {
 // identity state, header writes, snapshot import, atomic switch): the node
 // restarts consistently (old head or synced head) and then reaches the
 // source's head by applying blocks.
-func TestCrashDuringFastSync(t *testing.T) {
+func TestCrashDuringFastSync(t *testing.T) { crashDuringFastSync(t, 6, 16, 5, 25) }
+
+// The same with the snapshot more than the number of kept state versions (100) above the syncing node's head, which is
+// when fast sync is used at all: after the switch no state version is shared between the old and the new trees, so a
+// start-up that finds the head and the trees on different sides of the switch cannot repair itself.
+func TestCrashDuringFastSyncLongGap(t *testing.T) { crashDuringFastSync(t, 106, 124, 1, 4) }
+
+func crashDuringFastSync(t *testing.T, minSteps, maxSteps, maxTx, earlySamples int) {
 	rapid.Check(t, func(t *rapid.T) {
-		steps := rapid.IntRange(6, 16).Draw(t, "steps")
+		steps := rapid.IntRange(minSteps, maxSteps).Draw(t, "steps")
 		earlyAt := rapid.IntRange(0, 4).Draw(t, "syncFrom")
 		var early dbm.DB
-		opt := sim.Options{MinActors: 3, MaxActors: 7, Replicas: 1, MaxReplicas: 3, Steps: steps, MaxTxPerStep: 5}
+		opt := sim.Options{MinActors: 3, MaxActors: 7, Replicas: 1, MaxReplicas: 3, Steps: steps, MaxTxPerStep: maxTx}
 		opt.BetweenBlocks = func(h *sim.History) {
 			if len(h.Blocks) == earlyAt && early == nil {
 				early = sim.CopyDB(h.W.Replicas[0].DB)
@@ -338,7 +345,10 @@ func TestCrashDuringFastSync(t *testing.T) {
 		for k := switchAt + 1; k <= W; k++ {
 			points[k] = true
 		}
-		for i := 0; i < 25 && switchAt > 0; i++ {
+		if target-oldHead > 101 {
+			evid.Count("scenario.FastSync.gap_over_100")
+		}
+		for i := 0; i < earlySamples && switchAt > 0; i++ {
 			points[rapid.IntRange(1, switchAt).Draw(t, "earlyPoint")] = true
 		}
 		for k := 1; k <= W+1; k++ {
